@@ -73,6 +73,24 @@ def generate(rng, tier):
         # a LAMMPS input may already carry Pair Coeffs (and type labels) of its own
         from .. import machine
         spec["pair_coeffs"] = [machine.gen_coeff(rng, "in%d" % i) for i in range(len(spec["atom_type_elements"]))]
+    if opts["pp"] and rng.random() < 0.5:
+        # elements whose one-letter symbol is also the beginning of another element's symbol in the UFF table (B/Be, S/Si, I/In)
+        from mofun.atomic_masses import ATOMIC_MASSES
+        present = sorted(set(spec["elements"]))
+        e0 = rng.choice(present)
+        e1 = rng.choice([e for e in ("S", "B", "I") if e not in present] or ["S"])
+        if e1 not in present:
+            ren = lambda lst: [e1 if e == e0 else e for e in lst]
+            spec["elements"] = ren(spec["elements"])
+            spec["pattern"]["elements"] = ren(spec["pattern"]["elements"])
+            if spec.get("replace"):
+                spec["replace"]["elements"] = ren(spec["replace"]["elements"])
+                spec["replace"].pop("labels", None)
+            for i, e in enumerate(spec["atom_type_elements"]):
+                if e == e0:
+                    spec["atom_type_elements"][i] = e1
+                    spec["atom_type_labels"][i] = spec["atom_type_labels"][i].replace(e0, e1, 1)
+                    spec["atom_type_masses"][i] = round(ATOMIC_MASSES[e1] + 0.001 * i, 4)
     opts["framework_element"] = "Si" if rng.random() < 0.03 else None
     opts["in_fmt"] = rng.choice(["cif", "lmpdat", "lmpdat", "cml"])
     opts["pat_fmt"] = rng.choice(["cml", "cml", "lmpdat", "cif"])
@@ -165,6 +183,26 @@ def _cli_args(spec, paths, out):
     return a
 
 
+def _check_pp(ctx, atoms):
+    """--pp assigns each atom type the UFF pair parameters OF ITS ELEMENT: the UFF type named in the label must be a type of that
+    element (UFF type names start with the element symbol, one-letter symbols padded with '_'), and the coefficients must be that
+    type's tabulated well depth and distance (sigma = x1 * 2^(-1/6)), read off the parameter table independently."""
+    from mofun.uff4mof import UFF4MOF
+    els = [str(e) for e in atoms.atom_type_elements]
+    labels = [str(l) for l in atoms.atom_type_labels]
+    pcs = [str(c) for c in atoms.pair_coeffs]
+    if len(labels) != len(els) or len(pcs) != len(els):
+        raise Violation("cli:pp-table-length", "--pp: %d atom types, %d labels, %d pair coefficient entries" % (len(els), len(labels), len(pcs)), site="cli")
+    for e, l, c in zip(els, labels, pcs):
+        if l not in UFF4MOF or l[:2] != e.ljust(2, "_"):
+            raise Violation("cli:pp-wrong-element", "--pp: atom type of element %s was given the parameters of UFF type %r" % (e, l), site="cli")
+        toks = c.split("#")[0].split()
+        want = (UFF4MOF[l][3], UFF4MOF[l][2] * 2 ** (-1.0 / 6.0))
+        if len(toks) != 2 or abs(float(toks[0]) - want[0]) > 1e-5 or abs(float(toks[1]) - want[1]) > 1e-5:
+            raise Violation("cli:pp-wrong-values", "--pp: element %s (%s) has pair coefficients %r, the table gives epsilon %.6f sigma %.6f" % (e, l, c, want[0], want[1]), site="cli")
+    ctx.count("pp_assignments_checked")
+
+
 def _api_path(ctx, spec, paths, out, taps):
     """The documented order through the API: load, (cell), charges, replicate, mic, pair potentials, find/replace, save."""
     import mofun
@@ -183,6 +221,7 @@ def _api_path(ctx, spec, paths, out, taps):
         atoms = atoms.replicate(repls)
     if o.get("pp"):
         cli.assign_pair_params_to_structure(atoms)
+        _check_pp(ctx, atoms)
     search = Atoms.load(paths["find"])
     pre = replcheck.snapshot(atoms)
     found = None
@@ -247,6 +286,8 @@ def execute(spec, ctx):
         rng.reset(spec["script"])
         try:
             pre, found = _api_path(ctx, spec, paths, out_api, None)
+        except Violation:
+            raise
         except Exception as e:
             if type(e).__name__ == "AtomsShouldNotBeDeletedTwice":
                 # same files, same options, same script of the random seam: the replacement refuses, so the command line cannot
